@@ -5,6 +5,7 @@ From Coq Require Import NArith List Bool.
 Require Import SDS.Model.Mach SDS.Model.Bits SDS.Model.Raw SDS.Model.IntVec SDS.Model.BitVec SDS.Model.Ser.
 Require Import SDS.Spec.Stream SDS.Check.Common.
 Require Export SDS.Model.Ser SDS.Check.SerCommon.
+Require Export SDS.Check.SerWM.   (* WMCore / WaveletMatrix: their own universe wty and the CRoundW / CConcatW / CBadW cases *)
 Import ListNotations.
 Open Scope N_scope.
 
@@ -17,7 +18,12 @@ Inductive case :=
 (* several values in one stream; consumed: per value *)
 | CConcat (path : N) (dbg : bool) (items : list (ty * recipe)) (elems : list N) (consumed : list N) (all_eq : bool)
 (* arbitrary (malformed / extreme) stream loaded as type t *)
-| CBad (path : N) (dbg : bool) (t : ty) (elems tail : list N) (outcome consumed : N).
+| CBad (path : N) (dbg : bool) (t : ty) (elems tail : list N) (outcome consumed : N)
+(* the same three for WMCore::from(V) / WaveletMatrix::from(V) (Check/SerWM.v) *)
+| CRoundW (path : N) (dbg : bool) (t : wty) (V : list N) (elems tail : list N)
+          (size_el size_by : N) (extra : list N) (consumed : N) (eq_loaded eq_answers : bool)
+| CConcatW (path : N) (dbg : bool) (items : list (wty * list N)) (elems : list N) (consumed : list N) (all_eq : bool)
+| CBadW (path : N) (dbg : bool) (t : wty) (elems tail : list N) (outcome consumed : N).
 
 Definition model_sbp (t : ty) : interp t -> option N :=
   match t return interp t -> option N with
@@ -96,6 +102,30 @@ Definition check (c : case) : N :=
       let m_ok := (io_code r =? outcome)
                   && match r with IoOk (_, rest) => lenN bytes =? consumed + lenN rest | _ => true end in
       code m_ok true
+  | CRoundW path dbg t V elems tail size_el size_by extra consumed eq_loaded eq_answers =>
+      let bytes := stream elems tail in
+      let m_ok := SerWM.round_ok (sp_of path) (mode_of dbg) t V bytes extra consumed size_el in
+      let s_ok :=
+        match tail with [] => true | _ => false end
+        && (size_by =? 8 * size_el) && (lenN elems =? size_el) && (consumed =? size_by)
+        && eq_loaded && eq_answers && SerWM.header_ok t V elems in
+      code m_ok s_ok
+  | CConcatW path dbg items elems consumed all_eq =>
+      let sp := sp_of path in let m := mode_of dbg in
+      let bytes := stream elems [] in
+      let m_ok :=
+        match SerWM.concat_enc sp m items with
+        | Some e => nlist_eqb e bytes && SerWM.concat_ok sp m items consumed bytes
+        | None => false
+        end in
+      let s_ok := all_eq && (sumN consumed =? 8 * lenN elems) && (lenN consumed =? lenN items) in
+      code m_ok s_ok
+  | CBadW path dbg t elems tail outcome consumed =>
+      let bytes := stream elems tail in
+      let r := SerWM.bad_dec (sp_of path) (mode_of dbg) t bytes in
+      let m_ok := (fst r =? outcome)
+                  && match snd r with Some lft => lenN bytes =? consumed + lft | None => true end in
+      code m_ok true
   end.
 
 Definition explain (c : case) :=
@@ -110,4 +140,13 @@ Definition explain (c : case) :=
       (match concat_enc (sp_of path) (mode_of dbg) items with Some e => e | None => [] end, 0, 0)
   | CBad path dbg t elems tail outcome consumed =>
       ([], 0, io_code (c_dec (codec_of (mode_of dbg) t) (stream elems tail)))
+  | CRoundW path dbg t V elems tail size_el size_by extra consumed eq_loaded eq_answers =>
+      match SerWM.wbuild (sp_of path) (mode_of dbg) t V with
+      | Some v => (SerWM.wenc v, SerWM.wsize v, fst (SerWM.wdec v (stream elems tail ++ extra)))
+      | None => ([], 0, 99)
+      end
+  | CConcatW path dbg items elems consumed all_eq =>
+      (match SerWM.concat_enc (sp_of path) (mode_of dbg) items with Some e => e | None => [] end, 0, 0)
+  | CBadW path dbg t elems tail outcome consumed =>
+      ([], 0, fst (SerWM.bad_dec (sp_of path) (mode_of dbg) t (stream elems tail)))
   end.
